@@ -16,45 +16,55 @@
 (* not a string literal (possible in a partial file: badimport) cannot be    *)
 (* unquoted.  GuardImportPath = FALSE: the resolver panics there; TRUE: it   *)
 (* returns an error.  The resolver may also refuse a well-formed file.       *)
+(* "ParseDir+imports" is Decorator.ParseDir on such a decorator: the package *)
+(* is decorated as a whole, and the resolver has to be given the file an     *)
+(* identifier stands in.  GuardPackageFile = FALSE: it is given no file and  *)
+(* the syntax-based resolver dereferences nil at the first identifier it is  *)
+(* asked about (hasRef); TRUE: the file is looked up in the package.         *)
 (***************************************************************************)
 EXTENDS Naturals, Sequences, TLC
 
-CONSTANTS GuardPackage, GuardImportPath
-VARIABLES cls, entry, pc, result, badimport
+CONSTANTS GuardPackage, GuardImportPath, GuardPackageFile
+VARIABLES cls, entry, pc, result, badimport, hasRef
 
-vars == <<cls, entry, pc, result, badimport>>
+vars == <<cls, entry, pc, result, badimport, hasRef>>
 Classes == {"nilerr", "nopkg", "partial", "ok"}
-Entries == {"Parse", "ParseFile", "ParseDir", "Parse+imports"}
+Entries == {"Parse", "ParseFile", "ParseDir", "Parse+imports", "ParseDir+imports"}
+Dir(e) == e \in {"ParseDir", "ParseDir+imports"}
+Imp(e) == e \in {"Parse+imports", "ParseDir+imports"}
 
 Init == /\ cls \in Classes /\ entry \in Entries /\ pc = "parse" /\ result = "none"
         /\ badimport \in BOOLEAN /\ (badimport => cls = "partial")
+        /\ hasRef \in BOOLEAN          \* the file holds an identifier the resolver is asked about
 
 \* parser.ParseFile / ParseDir returned
 AfterParse ==
   /\ pc = "parse"
-  /\ IF cls = "nilerr" \/ (entry = "ParseDir" /\ cls # "ok")
+  /\ IF cls = "nilerr" \/ (Dir(entry) /\ cls # "ok")
      THEN pc' = "done" /\ result' = "error"                      \* perr != nil && f == nil / ParseDir err
      ELSE IF cls = "nopkg" /\ GuardPackage
      THEN pc' = "done" /\ result' = "error"                      \* the fix: no package clause -> the parse error
      ELSE pc' = "decorate" /\ result' = result
-  /\ UNCHANGED <<cls, entry, badimport>>
+  /\ UNCHANGED <<cls, entry, badimport, hasRef>>
 
 \* DecorateFile: fragment() needs Fset.File(file.Pos())
 Decorate ==
   /\ pc = "decorate"
   /\ IF cls = "nopkg" THEN pc' = "panic" /\ result' = "panic"
-     ELSE IF entry = "Parse+imports" /\ badimport
+     ELSE IF entry = "ParseDir+imports" /\ hasRef /\ ~GuardPackageFile
+     THEN pc' = "panic" /\ result' = "panic"
+     ELSE IF Imp(entry) /\ badimport
      THEN IF GuardImportPath THEN pc' = "done" /\ result' = "error" ELSE pc' = "panic" /\ result' = "panic"
      ELSE \/ pc' = "print" /\ result' = IF cls = "ok" THEN "tree" ELSE "tree+error"
-          \/ entry = "Parse+imports" /\ pc' = "done" /\ result' = "error"      \* the resolver refuses (dot-import ...)
-  /\ UNCHANGED <<cls, entry, badimport>>
+          \/ Imp(entry) /\ pc' = "done" /\ result' = "error"      \* the resolver refuses (dot-import ...)
+  /\ UNCHANGED <<cls, entry, badimport, hasRef>>
 
 \* printing the returned tree: output or an error (format.Node may refuse Bad nodes)
 DoPrint ==
   /\ pc = "print"
   /\ \E r \in {"output", "printerror"} : (cls = "ok" => r = "output") /\ result' = r
   /\ pc' = "done"
-  /\ UNCHANGED <<cls, entry, badimport>>
+  /\ UNCHANGED <<cls, entry, badimport, hasRef>>
 
 Next == AfterParse \/ Decorate \/ DoPrint
 Spec == Init /\ [][Next]_vars
@@ -65,8 +75,8 @@ NoPackageIsError == (pc = "done" /\ cls \in {"nilerr", "nopkg"}) => result = "er
 
 \* what an observed (entry, class, parse outcome, print outcome) may be
 AllowedParse(e, c) ==
-  CASE c = "ok" -> IF e = "Parse+imports" THEN {"tree", "error"} ELSE {"tree"}
-    [] c = "partial" -> IF e = "ParseDir" THEN {"error"} ELSE {"tree+error", "error"}
+  CASE c = "ok" -> IF Imp(e) THEN {"tree", "error"} ELSE {"tree"}
+    [] c = "partial" -> IF Dir(e) THEN {"error"} ELSE {"tree+error", "error"}
     [] OTHER -> {"error"}
 AllowedPrint(c, p) == IF p \in {"tree", "tree+error"} THEN (IF c = "ok" THEN {"output"} ELSE {"output", "printerror"}) ELSE {"none"}
 =============================================================================
